@@ -185,6 +185,36 @@ def restart (st : St) (now : Nat) : St :=
   { st with rl := st.rl.map (fun l => { l with recs := FMap.empty }), mem := live, db := live }
 
 
+/-! ### removeSession is two steps
+
+`removeSession` first deletes the map entry under `a.lock`, releases the lock,
+and then deletes the entry from sessions.db.  Other goroutines (each
+`checkSession` is atomic: it holds `a.lock` throughout, file write included)
+can run between the two steps. -/
+
+def logoutMem (st : St) (tok : Nat) : St := { st with mem := st.mem.erase tok }
+def logoutFile (st : St) (tok : Nat) : St := { st with db := st.db.erase tok }
+
+inductive LogoutOrder where
+  /-- the order of the source: map entry first, file entry second -/
+  | memFirst
+  | fileFirst
+  deriving DecidableEq, Repr
+
+def logoutStep1 : LogoutOrder → St → Nat → St
+  | .memFirst, st, tok => logoutMem st tok
+  | .fileFirst, st, tok => logoutFile st tok
+
+def logoutStep2 : LogoutOrder → St → Nat → St
+  | .memFirst, st, tok => logoutFile st tok
+  | .fileFirst, st, tok => logoutMem st tok
+
+/-- A logout racing with ONE request carrying the same cookie that runs
+between its two steps: the request's verdict and the state afterwards. -/
+def logoutRace (o : LogoutOrder) (st : St) (now tok : Nat) : Bool × St :=
+  let r := checkSession (logoutStep1 o st tok) now tok
+  (r.1 == .ok, logoutStep2 o r.2 tok)
+
 /-! ### fallible writes to sessions.db
 
 `dbOK = false`: the write transaction cannot be made (`db.Begin(true)` or
